@@ -418,6 +418,16 @@ class ProcMem:
             self.swaps += 1
 
 
+class SutHang(Exception):
+    """The system under test never came back: an infinite loop without any seam
+    call (cpu-hang) or more scheduler steps than the cap (step-cap)."""
+
+    def __init__(self, reason, run):
+        super().__init__(reason)
+        self.reason = reason
+        self.where = getattr(run.sim, "hung_where", "")
+
+
 class SimRun:
     """One simulated execution of a real pygopherd server."""
 
@@ -703,7 +713,10 @@ class SimRun:
         self.sim.at(delay, fire, label)
 
     def go(self):
-        return self.sim.run()
+        st = self.sim.run()
+        if st in ("cpu-hang", "step-cap"):
+            raise SutHang(st, self)
+        return st
 
     def collect(self):
         """Deterministic stand-in for the cyclic GC: driver only, while idle."""
@@ -716,6 +729,8 @@ class SimRun:
 
     def shutdown(self):
         self.stop = True
+        if self.sim.aborted:
+            return self.sim.aborted
         return self.sim.run()
 
     def norm(self, s):
